@@ -51,7 +51,9 @@ type dcase struct {
 	Keys     [][]json.RawMessage `json:"keys"` // [org, db]
 	RPs      []string            `json:"rps"`
 	VirtOrgs []int               `json:"virtOrgs"`
-	NV       int                 `json:"nv"`
+	// organizations that also own a bucket "<d1>/autogen", whose virtual mapping collides with the one of bucket "<d1>"
+	CollideOrgs []int `json:"collideOrgs"`
+	NV          int   `json:"nv"`
 }
 
 // concretisations: db names for d1, d2; rp names for r1, r2 ("autogen" is literal: it is what a bucket name without a
@@ -354,12 +356,19 @@ func run(raw json.RawMessage, env *rt.Env) rt.Result {
 	for _, o := range c.VirtOrgs {
 		isVirt[o] = true
 	}
+	isCollide := map[int]bool{}
+	for _, o := range c.CollideOrgs {
+		isCollide[o] = true
+	}
 	for _, o := range w.orgs {
 		addBucket(10*o+1, o, "t1")
 		addBucket(10*o+2, o, "t2")
 		if isVirt[o] {
 			addBucket(10*o+3, o, w.db("d1"))
 			addBucket(10*o+4, o, w.db("d1")+"/"+w.rp("r1"))
+		}
+		if isCollide[o] {
+			addBucket(10*o+5, o, w.db("d1")+"/autogen")
 		}
 	}
 	w.svc = dbrp.NewService(ctx, bs, st)
